@@ -62,4 +62,47 @@ func H_C14_loop() {
 	assert(len(ss.fc.consumed) == seenByConsumer, "the consumer never sees the library's own writes")
 }
 
+// H_C14_inflight: the closed loop under concurrency. The echo of a checkpoint
+// write reaches the stream while the save that produced it is still in flight
+// (the store call has written the document but not returned yet - the
+// quantifier of C05 names this window). The echoed event lands on the saved
+// vBucket itself or on another one. After the save returns, with no further
+// acknowledgement, later saves must write nothing: a checkpoint write never
+// triggers a further checkpoint write.
+func H_C14_inflight() {
+	vNVcur = 2
+	sharedFields("anyDirtyOffset", "dirtyOffsets")
+	ss := vNewSession()
+	src := choose("vb", vNV())
+	ss.deliverDoc(src, 0, true) // real progress, acknowledged
+	target := choose("echo-vb", vNV())
+	echoed := false
+	ss.fm.onSave = func() {
+		// the document is in the bucket; its mutation comes back on the stream now
+		if !echoed {
+			echoed = true
+			key := append([]byte("_connector:cbgo:"), nondetBytes("keytail", 3)...)
+			spawnEnv(func() { ss.deliverReserved(target, key) })
+			yield()
+		}
+	}
+	seenByConsumer := len(ss.fc.consumed)
+	spawnEnv(func() { ss.s.checkpoint.Save() })
+	quiesce()
+	assert(echoed, "the save wrote")
+	assert(len(ss.fm.calls) == 1, "the real progress is written once")
+	if target == src {
+		cover("echo-on-saved-vbucket")
+	} else {
+		cover("echo-on-other-vbucket")
+	}
+	ss.s.checkpoint.Save()
+	ss.s.checkpoint.Save()
+	assert(len(ss.fm.calls) == 1, "a checkpoint write echoed during its own save causes no further write")
+	assert(len(ss.fc.consumed) == seenByConsumer, "the consumer never sees the library's own writes")
+	doc, ok := ss.fm.store[uint16(src)]
+	assert(ok, "progress durable")
+	_ = doc
+}
+
 var _ = models.Offset{}
